@@ -312,6 +312,10 @@ package syncer
 //@   at_call syncer.(*Syncer).SendOnce#1 assert own_is_the_name_in_snapshot_names: sameSlice(ownInstanceID, s.instanceID())
 //@   at_call syncer.(*Syncer).SendOnce#1 assert local_change_startup_or_forced: snapshotOverdue || ghost_loc_prevSynced == 0 || ghost_lastApp > ghost_loc_prevSynced
 //@   noswallow except receiver.(*Receiver).RunOnce
+//@   loop 2 ghost loc_looked := 0
+//@   after_call lmdb.(*Env).Info#1 ghost loc_looked := 1
+//@   ensures a_single_pass_ends_after_a_fresh_look_at_the_lmdb: r0 == nil ==> ghost_loc_looked == 1
+//@   ensures a_single_pass_ends_with_everything_published: r0 == nil ==> (!s.opt.ReceiveOnly && ghost_loc_info <= uint64(lastSyncedTxnID) ==> ghost_unpub > ghost_loc_info)
 //@   at_call utils.SleepContext#0 assert idle_published: !s.opt.ReceiveOnly && ghost_loc_info <= uint64(lastSyncedTxnID) ==> ghost_unpub > ghost_loc_info
 //@   at_call utils.SleepContext#0 assert idle_only_waiting_own: ghost_loc_info > uint64(lastSyncedTxnID) ==> ghost_loc_waitOwn == 1
 
